@@ -6,6 +6,10 @@
 (*          path cover replayed on the real ServerHandle/Proceed;             *)
 (*  deep    exhaustive, Sync = TRUE, the code's QueueCap, up to QueueCap + 3  *)
 (*          pipelined requests (queue full, back-pressure), labelled graph;   *)
+(*  hosts   exhaustive, Sync = TRUE: first request x follow-ups within the     *)
+(*          family of spellings of the first host (same origin, other port,   *)
+(*          other case, default port written out, other domain/address), and  *)
+(*          redirects whose Location is such a variant of the request's Host; *)
 (*  sim     -simulate with seeded random message sets from the whole lattice. *)
 EXTENDS Forwarder, Json
 
@@ -19,7 +23,9 @@ MCClosers == ${Closers}
 \* lattice runs (Lattice = TRUE): every message of the set is sent once, as the first message; the second client
 \* message, if any, is the plain follow-up request (message 1), the message after an interim response the plain
 \* final response (message 1)
-MCReqNext == IF ${Lattice} THEN {1} ELSE MCReqMsgs
+\* host-pair runs (Follow # <<>>): Follow[f] = the messages that may follow when f was the first message
+MCFollow == ${Follow}
+MCReqNext(f) == IF ${Lattice} THEN {1} ELSE IF MCFollow = <<>> THEN MCReqMsgs ELSE MCFollow[f]
 MCRespNext == IF ${Lattice} THEN {1} ELSE MCRespMsgs
 
 \* long runs of refused requests: at most one more message after the accepted one
@@ -29,6 +35,13 @@ AuthDeepOK == first = 0 \/ Len(sent) <= first + 1
 ReqLattice == [m : {"GET", "HEAD", "POST"}, h : {"a"}, cl : BOOLEAN, au : {"none", "bad", "good"},
                hs : SUBSET ReqClasses, bd : ReqBodies]
 RespLattice == [st : Interims \cup Finals, cl : BOOLEAN, hs : SUBSET RespClasses, bd : RespBodies]
+ASSUME \A k \in MCReqMsgs : MCReqDef[k].h \in HostIds \cup {""}
+\* the origin relation: equal spellings name equal origins, and the alphabet has every class C16 must decide
+ASSUME \A h \in HostIds : SameOrigin(h, h)
+ASSUME /\ ~SameOrigin("a", "aP") /\ SameOrigin("a", "aC") /\ ~SameOrigin("a", "aCP") /\ ~SameOrigin("a", "aN") /\ ~SameOrigin("a", "b")
+       /\ SameOrigin("d", "dE") /\ SameOrigin("d", "dC") /\ ~SameOrigin("d", "dP")
+       /\ ~SameOrigin("i", "iP") /\ ~SameOrigin("i", "iO") /\ SameOrigin("iN", "iE") /\ ~SameOrigin("i", "iN")
+       /\ ~SameOrigin("v", "vP") /\ SameOrigin("v", "vC")
 ASSUME \A r \in ReqLattice : LET f == FilterReq(r) IN
           /\ f.m = r.m /\ f.h = r.h /\ f.au = "none"
           /\ f.hs \cap {"hop", "nom", "upg"} = {} /\ \A c \in ReqKept : (c \in f.hs) = (c \in r.hs)
